@@ -392,6 +392,24 @@ func c05Gen(rng *rand.Rand) *metaCase {
 			}
 			ls = append(ls, "##!> include "+f, "between", "##!=>", "##!> include "+f+".ra", "##!> include dia1", "##!> include dia2")
 		}
+		if core.Chance(rng, 1, 12) {
+			// a chain of 9..13 include files; every file has entries in front of and behind its include line, and the
+			// files grow towards the bottom of the chain: what a deeper file needed must not show in the upper ones
+			depth := 9 + rng.Intn(5)
+			feats["deep-chain-with-entries-behind-the-include-line"] = true
+			for k := 1; k <= depth; k++ {
+				var sb strings.Builder
+				fmt.Fprintf(&sb, "lvl%02dhead\n", k)
+				if k < depth {
+					fmt.Fprintf(&sb, "##!> include deep%02d\n", k+1)
+				}
+				for e := 0; e < 2+k*3; e++ {
+					fmt.Fprintf(&sb, "lvl%02dentry%03d\n", k, e)
+				}
+				p.Files.Include[fmt.Sprintf("deep%02d", k)] = sb.String()
+			}
+			ls = append(ls, "##!> include deep01")
+		}
 		if core.Chance(rng, 1, 25) {
 			// an include file above a buffer size (4 KiB, 8 KiB, 64 KiB), made of short entries
 			size := core.Pick(rng, 4200, 5000, 9000, 17000, 66000, 100000)
@@ -692,6 +710,38 @@ func c06Gen(rng *rand.Rand) *metaCase {
 		p.Files.Exclude["longlistx"] = longx.String()
 		main = append(main, core.Pick(rng, "##!> include-except longlist longlistx", "##!> include-except longlist longlistx -- @ [\\s>] ~ \"\"", "##!> include longlist -- @ AT"))
 		feats["long-word-list"] = true
+	}
+	// exclude files that together list more lines than any batch or buffer of a few hundred entries holds
+	if core.Chance(rng, 1, 8) {
+		var long, x1, x2 strings.Builder
+		for i := 0; i < 520; i++ {
+			e := fmt.Sprintf("bulk%04d", i)
+			long.WriteString(e + "\n")
+			if i%5 != 0 && i < 260 {
+				x1.WriteString(e + "\n")
+			}
+			if i%5 != 0 && i >= 260 && i < 480 {
+				x2.WriteString(e + "\n")
+			}
+		}
+		p.Files.Include["bulklist"] = long.String()
+		p.Files.Exclude["bulkx1"], p.Files.Exclude["bulkx2"] = x1.String(), x2.String()
+		main = append(main, core.Pick(rng, "##!> include-except bulklist bulkx1 bulkx2", "##!> include-except bulklist bulkx2 bulkx1", "##!> include-except bulklist bulkx1"))
+		feats["hundreds-of-exclusions"] = true
+	}
+	// an include file with many definitions and several exclude files that use and extend them
+	if core.Chance(rng, 1, 8) {
+		var f strings.Builder
+		for i := 0; i < 150; i++ {
+			fmt.Fprintf(&f, "##!> define md%03d v%d\n", i, i)
+		}
+		f.WriteString("one{{md001}}\ntwo{{md077}}\nthree{{md149}}\nfour\n")
+		p.Files.Include["manydefs"] = f.String()
+		p.Files.Exclude["mdx1"] = "##!> define own1 x\ntwo{{md077}}\n"
+		p.Files.Exclude["mdx2"] = "##!> define own2 y\nthree{{md149}}\nnot{{own2}}there\n"
+		p.Files.Exclude["mdx3"] = "four\n"
+		main = append(main, "##!> include-except manydefs mdx1 mdx2 mdx3")
+		feats["many-definitions-several-exclude-files"] = true
 	}
 	// an exclude file that is itself built by an include-except directive: the inner directive finishes before the
 	// outer one goes on
